@@ -53,6 +53,7 @@ def draw_cfg(st):
                     [4, 2, 2, 0, 0, 0, 5], [1, 1, 6, 0, 0, 5, 1]][st.choose(5, "mix")]
     else:
         cfg["text"] = bool(st.choose(2, "text"))
+        cfg["p_io_error"] = [0.0, 0.0, 0.15][st.choose(3, "p_io")]
     return cfg
 
 
@@ -71,6 +72,8 @@ def gen_ops(st, cfg):
             # write_untyped, write_typed, write_tb, validate, serialize, flush, reset
             w = list(cfg["w"])
             if cfg["use_serialize"]:
+                w[4] = max(w[4], 4)
+                w[6] = max(w[6], 2)       # reset racing serialize
                 w[0] = 0          # serialize() requires every message to have a serializer
                 w[3] = 0          # validate() replaces messages by their serialized form; serializing a
                                   # traceback message twice fails sequentially too (not a race)
@@ -289,7 +292,10 @@ def run_memory(rc, cfg, actors_ops):
         if h["op"] == "serialize":
             for d in h["result"]:
                 n = d.get("nid")
-                if d.get("message_type", "").startswith("c16:t") and d.get("v") not in (2 * n, 4 * n, 8 * n):
+                mt = d.get("message_type", "")
+                if "v" in d and isinstance(n, int) and mt != "c16:t%d" % n and not mt.startswith("c16:n"):
+                    raise Violation("serialize_wrong", "serialize() paired message nid=%s with the serializer of %r" % (n, mt))
+                if mt.startswith("c16:t") and d.get("v") not in (2 * n, 4 * n, 8 * n):
                     raise Violation("serialize_wrong", "serialize() gave v=%r for nid=%s" % (d.get("v"), n))
     return {"ops": len(hist), "resets": len(resets)}
 
@@ -300,7 +306,8 @@ def run_file(rc, cfg, actors_ops):
               traced=["_output.py"])
     rc.sched = s
     rc.clock = seams.begin_run(rc.seed)
-    f = SimFile("log", text=cfg["text"])
+    pio = cfg.get("p_io_error", 0.0)
+    f = SimFile("log", text=cfg["text"], fault=rc.dec.stream("fault"), p_io_error=pio, stats=rc.faults)
     f2 = SimFile("log2", text=not cfg["text"])
     rc.file = f
     offered = []
@@ -335,18 +342,42 @@ def run_file(rc, cfg, actors_ops):
     for ff in (f, f2):
         data = ff.os_cache + ff.user_buf
         parts = data.split(b"\n")
+        if pio and ff is f:
+            # a write error may have accepted a prefix of a line: such fragments glue to the next line
+            continue_check = False
+            good = [p2 for p2 in parts[:-1]]
+            cnt = {}
+            for raw in good:
+                try:
+                    n = json.loads(raw.decode("utf-8"))["nid"]
+                except Exception:  # noqa
+                    continue
+                cnt[n] = cnt.get(n, 0) + 1
+            dup = [n for n, c in cnt.items() if c > 1]
+            if dup:
+                raise Violation("duplicated", "after an I/O error message nid=%d appears %d times in file %s" % (
+                    dup[0], cnt[dup[0]], ff.name))
+            # the write discipline still holds for every call that was made
+            for c in ff.calls:
+                if c[0] in ("write", "write!") and (not c[1].endswith(b"\n") or c[1].count(b"\n") != 1):
+                    raise Violation("split_write", "a write call did not carry exactly one complete line: %r" % c[1][:80])
+            continue
         if parts[-1] != b"":
             raise Violation("torn_line", "file %s does not end with a newline: %r" % (ff.name, parts[-1][:80]))
         seen = {}
         for raw in parts[:-1]:
             try:
                 d = json.loads(raw.decode("utf-8"))
+                if d.get("message_type") == "eliot:destination_failure":
+                    continue          # report about a failed write to the other file
                 n = d["nid"]
             except Exception:  # noqa
                 raise Violation("torn_line", "a line of %s is not one JSON message: %r" % (ff.name, raw[:120]))
             seen[n] = seen.get(n, 0) + 1
         for n in offered:
             if seen.get(n, 0) != 1:
+                if pio and ff is f and seen.get(n, 0) == 0:
+                    continue      # a write or flush of this line failed: it may be missing, never doubled
                 raise Violation("lost" if n not in seen else "duplicated",
                                 "message nid=%d appears %d times in file %s" % (n, seen.get(n, 0), ff.name))
         for c in ff.calls:
